@@ -91,6 +91,8 @@ def run_repo_tests(prop: str, test_files: list[str], rec, timeout=1500):
         env = dict(os.environ)
         env['AEIC_VERIF_CONTRACT_OUT'] = str(out)
         env['PYTHONPATH'] = f'{boot.VERIF}:{boot.DEPS}'
+        if os.environ.get('VERIF_REPO'):
+            env['PYTHONPATH'] += f":{boot.REPO / 'src'}"
         env.pop('AEIC_PATH', None)
         p = subprocess.run([boot.PY, '-m', 'pytest', '-q', '-p', 'no:cacheprovider', '-p',
                             'vlib.pytest_contracts', '--timeout=900', *test_files],
